@@ -201,3 +201,18 @@ CHECKS["C15"] = {
     "design_ref": "DESIGN.md section 5 (C15)",
     "note": "The failing call fails from k on (so 'what reached the sink before' is everything in the sink).",
 }
+
+CHECKS["C16"] = {
+    "technique": "TLA+ Reader window model (Reader.tla: BlockDone / Trim) model-checked with the real constants over all block-size "
+                 "plans (MC_LinkedPlans) and at W = 4 over all sequences (MC_ReaderWindow); TLC-enumerated plans are encoded by an "
+                 "independent encoder and read by the real Reader; the recorded per-block window lengths (verif hook) and Read calls are "
+                 "validated by TLC (Reader_Trace, LZ4Frame_Trace_C16)",
+    "text": "TLC proves for every plan of up to 3 blocks over ten size classes (and for every sequence at small scale) that the Reader's "
+            "history window keeps at least min(64 KiB, bytes decoded) bytes, i.e. that every legal offset stays resolvable across "
+            "any number of blocks, and exports the plans; each plan x kind (stored, literal, matches 1 back / 65535 back / into the "
+            "previous block / straddling the boundary) is encoded by ref.EncodeFrame, read with concurrency 1 and 4 (silent "
+            "fall-back), through Read buffer sequences and WriteTo. The trace must show the model's window length after every block "
+            "and deliver exactly the content; tiny plans are decoded by TLC itself, which also validates the encoder.",
+    "design_ref": "DESIGN.md section 5 (C16)",
+    "note": "The Apalache inductive check of the window invariant is not part of the registered commands.",
+}
